@@ -12,15 +12,16 @@ prefixed units to the table and evals again); the public functions `is_compatibl
 `unit_conversion`, `convert_units`, `simplify_unit`; and `PhysicalUnit.name()` as a token list
 that is parsed back by the same parser.
 
-The model follows the code as it is, including four behaviours recorded as findings
-(known_findings.d/C06.json); if the code is repaired the named definition has to follow:
-  * `__rdiv__` does not reject offset units                              → `PUnit.rdiv`
-  * inverse-integer powers store *float* exponents in `_names`, so `name()` prints `ft**2.0`
-                                                                         → `ndDiv`, `PUnit.powInv`
-  * the prefix scan works on `[A-Za-z][A-Za-z0-9]*` runs of the raw string, so the `e3` of `1e3`
-    and the two halves of `arc_minute` are looked up as units when the first eval failed
-                                                                         → `scanItemsAux`
-  * `name()` prints a negative number unparenthesised (`m**2*-2**2`)      → `atomToks`, `pieceExpr`
+The model follows the code as it is after the five repairs of /repo commits 30c39a3, ab93d8e,
+63e8986, aeaafc1, 12eb624 (harness/c06.py:quirk_facts probes on every run that the live code still
+behaves this way):
+  * `__rdiv__` rejects offset units like the other operators              → `PUnit.rdiv`
+  * inverse-integer powers keep Python ints in `_names` / `_powers` (`//`) → `ndDiv`, `PUnit.powInv`
+  * the prefix scan looks at whole identifiers `(?<![\w.])[A-Za-z_]\w*`, so the `e3` of `1e3` is not
+    an item and `arc_minute` is one item                                  → `scanItemsAux`
+  * `name()` parenthesises a negative number (`m**2*(-2)**2`)             → `atomToks`, `pieceExpr`
+  * `simplify_unit` returns its argument when only numbers are left in the name (`m/m*2`)
+                                                                         → `apiSimplify`
 
 Anything outside the modelled fragment is answered `Err.abstain` (never compared).
 Core Lean only.
@@ -44,17 +45,16 @@ deriving DecidableEq, Repr
 
 /-! ## Part 1 — `NumberDict` and `PhysicalUnit` over an arbitrary carrier -/
 
-/-- A `NumberDict` value / an exponent: a Python `int`, or a `float` with integral value
-(`isF = true`; produced only by the inverse-integer branch of `__pow__`). -/
+/-- A `NumberDict` value / an exponent: always a Python `int` (the inverse-integer branch of
+`__pow__` divides with `//` after checking divisibility). -/
 structure Pw where
   v : Int
-  isF : Bool
 deriving DecidableEq, Repr
 
-def Pw.add (a b : Pw) : Pw := ⟨a.v + b.v, a.isF || b.isF⟩
-def Pw.neg (a : Pw) : Pw := ⟨-a.v, a.isF⟩
-def Pw.one : Pw := ⟨1, false⟩
-def Pw.zero : Pw := ⟨0, false⟩
+def Pw.add (a b : Pw) : Pw := ⟨a.v + b.v⟩
+def Pw.neg (a : Pw) : Pw := ⟨-a.v⟩
+def Pw.one : Pw := ⟨1⟩
+def Pw.zero : Pw := ⟨0⟩
 
 /-- A key of `_names`: a unit name, or `str(other)` of a number multiplied / divided in. -/
 inductive Atom (K : Type) where
@@ -87,9 +87,9 @@ def ndAdd (a b : Names K) : Names K := b.foldl (fun acc kv => ndBump acc kv.1 kv
 /-- `NumberDict.__sub__` (and `__rsub__` with the roles swapped by the caller) -/
 def ndSub (a b : Names K) : Names K := b.foldl (fun acc kv => ndBump acc kv.1 (Pw.neg kv.2)) a
 /-- `NumberDict.__mul__` by an int -/
-def ndScale (n : Int) (a : Names K) : Names K := a.map (fun kv => (kv.1, ⟨n * kv.2.v, kv.2.isF⟩))
-/-- `NumberDict.__div__`: true division, the values become floats -/
-def ndDiv (a : Names K) (r : Int) : Names K := a.map (fun kv => (kv.1, ⟨kv.2.v / r, true⟩))
+def ndScale (n : Int) (a : Names K) : Names K := a.map (fun kv => (kv.1, ⟨n * kv.2.v⟩))
+/-- `NumberDict((k, v // rounded) for k, v in self._names.items())` in `__pow__` -/
+def ndDiv (a : Names K) (r : Int) : Names K := a.map (fun kv => (kv.1, ⟨kv.2.v / r⟩))
 
 variable [Add K] [Sub K] [Mul K] [Div K] [OfNat K 0] [OfNat K 1]
 
@@ -129,9 +129,10 @@ def divNum (a : PUnit K) (x : K) (key : Atom K) : Except Err (PUnit K) :=
   else .ok { names := ndAdd a.names [(key, Pw.neg Pw.one)], factor := a.factor / x,
              powers := a.powers, offset := 0 }
 
-/-- `PhysicalUnit.__rdiv__`: number / unit.  No offset check in the code; the offset is dropped. -/
+/-- `PhysicalUnit.__rdiv__`: number / unit -/
 def rdiv (a : PUnit K) (x : K) (key : Atom K) : Except Err (PUnit K) :=
-  if a.factor = 0 then .error .zeroDiv
+  if a.offset ≠ 0 then .error .typeErr
+  else if a.factor = 0 then .error .zeroDiv
   else .ok { names := ndSub [(key, Pw.one)] a.names, factor := x / a.factor,
              powers := a.powers.map (fun p => -p), offset := 0 }
 
@@ -157,7 +158,7 @@ def powInv (root : K → Int → Option K) (baseNames : List String) (a : PUnit 
       let names : Names K :=
         if a.names.all (fun kv => kv.2.v % r = 0) then ndDiv a.names r
         else (if f ≠ 1 then [(Atom.litF f, Pw.one)] else []) ++
-             (List.zipWith (fun x n => (Atom.sym n, (⟨x, true⟩ : Pw))) p baseNames)
+             (List.zipWith (fun x n => (Atom.sym n, (⟨x⟩ : Pw))) p baseNames)
       .ok { names := names, factor := f, powers := p, offset := 0 }
   else .error .typeErr
 
@@ -493,16 +494,25 @@ def groupRuns : List Char → List (Bool × List Char)
 def subAs (cs : List Char) : List Char :=
   ((groupRuns cs).map (fun br => if br.1 && br.2 == ['a', 's'] then ['a', 's', '_'] else br.2)).flatten
 
-/-- `re.findall('[A-Z,a-z]{1}[A-Z,a-z,0-9]*', name)` for strings without a comma -/
-def scanItemsAux : Nat → List Char → List (List Char)
-  | 0, _ => []
-  | _ + 1, [] => []
-  | fuel + 1, c :: cs =>
-    if c.isAlpha then
-      (c :: cs.takeWhile Char.isAlphanum) :: scanItemsAux fuel (cs.dropWhile Char.isAlphanum)
-    else scanItemsAux fuel cs
+/-- `re.findall(r'(?<![\w.])[A-Za-z_]\w*', name)` (ASCII input; anything else made the first eval
+abstain): an item starts at a letter / underscore that is not preceded by a word character or a
+dot (so not inside a number such as `1e3`, `1.e3`) and runs over the whole identifier.
+`prev` is the character before the current position. -/
+def scanItemsAux : Nat → Option Char → List Char → List (List Char)
+  | 0, _, _ => []
+  | _ + 1, _, [] => []
+  | fuel + 1, prev, c :: cs =>
+    let free : Bool :=
+      match prev with
+      | none => true
+      | some p => !(isWordChar p || p == '.')
+    if isIdStart c && free then
+      -- the character after the run is not a word character, so it cannot start an item whatever
+      -- `prev` is; `c` stands for the last character of the run
+      (c :: cs.takeWhile isWordChar) :: scanItemsAux fuel (some c) (cs.dropWhile isWordChar)
+    else scanItemsAux fuel (some c) cs
 
-def scanItems (cs : List Char) : List (List Char) := scanItemsAux (cs.length + 1) cs
+def scanItems (cs : List Char) : List (List Char) := scanItemsAux (cs.length + 1) none cs
 
 def rstripUnderscore (cs : List Char) : List Char := (cs.reverse.dropWhile (· == '_')).reverse
 
@@ -617,10 +627,12 @@ def apiConvert (root : Rat → Int → Option Rat) (lib : Lib) (x : Rat) (a b : 
 
 /-! ### `PhysicalUnit.name()` and `simplify_unit` -/
 
+/-- a `_names` key that is the `str` of a number, as `name()` prints it: a key that starts with
+`-` is wrapped in parentheses -/
 def numToks (x : NumV) : List Tok :=
   match x with
-  | .int i => if i < 0 then [Tok.minus, Tok.int i.natAbs] else [Tok.int i.toNat]
-  | .flt q => if q < 0 then [Tok.minus, Tok.flt (-q)] else [Tok.flt q]
+  | .int i => if i < 0 then [Tok.lpar, Tok.minus, Tok.int i.natAbs, Tok.rpar] else [Tok.int i.toNat]
+  | .flt q => if q < 0 then [Tok.lpar, Tok.minus, Tok.flt (-q), Tok.rpar] else [Tok.flt q]
 
 def atomToks : Atom Rat → List Tok
   | .sym s => [Tok.ident s]
@@ -628,21 +640,20 @@ def atomToks : Atom Rat → List Tok
   | .litF q => numToks (.flt q)
 
 /-- `'**' + str(power)` -/
-def pwToks (v : Int) (isF : Bool) : List Tok :=
-  [Tok.dstar, if isF then Tok.flt (v : Rat) else Tok.int v.toNat]
+def pwToks (v : Int) : List Tok := [Tok.dstar, Tok.int v.toNat]
 
 /-- the `num` string of `name()` as a list of `*`-prefixed pieces -/
 def nameNum : Names Rat → List Tok
   | [] => []
   | (k, p) :: rest =>
-    (if p.v > 0 then Tok.star :: atomToks k ++ (if p.v > 1 then pwToks p.v p.isF else []) else [])
+    (if p.v > 0 then Tok.star :: atomToks k ++ (if p.v > 1 then pwToks p.v else []) else [])
       ++ nameNum rest
 
 /-- the `denom` string of `name()` -/
 def nameDen : Names Rat → List Tok
   | [] => []
   | (k, p) :: rest =>
-    (if p.v < 0 then Tok.slash :: atomToks k ++ (if p.v < -1 then pwToks (-p.v) p.isF else []) else [])
+    (if p.v < 0 then Tok.slash :: atomToks k ++ (if p.v < -1 then pwToks (-p.v) else []) else [])
       ++ nameDen rest
 
 /-- `PhysicalUnit.name()` as tokens: `num[1:] + denom`, `'1'` when `num` is empty -/
@@ -657,43 +668,50 @@ def restoreAs (ts : List Tok) : List Tok :=
     | Tok.ident s => if s = "as_" then Tok.ident "as" else Tok.ident s
     | t => t)
 
-/-- `simplify_unit(old_unit_str)`: `none` is Python's `None` (the name was `'1'`). -/
+/-- what `simplify_unit` returns -/
+inductive Simp where
+  /-- Python's `None` (the name was `'1'`) -/
+  | unity
+  /-- the argument itself (only numbers are left in the name, e.g. `'m/m*2'`) -/
+  | same
+  /-- the rendered name -/
+  | toks (ts : List Tok)
+deriving DecidableEq, Repr
+
+/-- `any(p and k in _UNIT_LIB.unit_table for k, p in found_unit._names.items())` -/
+def hasUnitName (t : Table) (n : Names Rat) : Bool :=
+  n.any (fun kv => kv.2.v != 0 &&
+    (match kv.1 with
+     | .sym s => (tlookup t s).isSome
+     | _ => false))
+
+/-- `simplify_unit(old_unit_str)` -/
 def apiSimplify (root : Rat → Int → Option Rat) (lib : Lib) (s : String) :
-    Except Err (Option (List Tok)) × Lib :=
+    Except Err Simp × Lib :=
   match findUnit root lib s with
   | (.error e, l) => (.error e, l)
   | (.ok u, l) =>
     let ts := nameToks u.names
-    if ts = [Tok.int 1] then (.ok none, l) else (.ok (some (restoreAs ts)), l)
+    if ts ≠ [Tok.int 1] && !(hasUnitName l.table u.names) then (.ok .same, l)
+    else if ts = [Tok.int 1] then (.ok .unity, l)
+    else (.ok (.toks (restoreAs ts)), l)
 
 /-- The expression `name()` denotes, built directly (what `parseToks (nameToks n)` returns; that
 link is checked by the driver on every case and by examples, the theorems are about this AST). -/
 def atomExpr : Atom Rat → Expr
   | .sym s => Expr.ident s
-  | .litI i => Expr.int i.toNat
-  | .litF q => Expr.flt q
+  | .litI i => if i < 0 then Expr.neg (Expr.int i.natAbs) else Expr.int i.toNat   -- `(-2)` / `2`
+  | .litF q => if q < 0 then Expr.neg (Expr.flt (-q)) else Expr.flt q
 
-def atomNeg : Atom Rat → Bool
-  | .sym _ => false
-  | .litI i => i < 0
-  | .litF q => q < 0
-
-def atomAbs : Atom Rat → Atom Rat
-  | .sym s => .sym s
-  | .litI i => .litI i.natAbs
-  | .litF q => .litF (ratAbs q)
-
-/-- one `atom` or `atom**p` piece, with Python's reading of a leading minus sign -/
-def pieceExpr (k : Atom Rat) (v : Int) (isF : Bool) : Expr :=
-  let base := atomExpr (atomAbs k)
-  let powd := if v > 1 then Expr.pow base (if isF then Expr.flt (v : Rat) else Expr.int v.toNat) else base
-  if atomNeg k then Expr.neg powd else powd
+/-- one `atom` or `atom**p` piece (a negative number is parenthesised, so `**` applies to it) -/
+def pieceExpr (k : Atom Rat) (v : Int) : Expr :=
+  if v > 1 then Expr.pow (atomExpr k) (Expr.int v.toNat) else atomExpr k
 
 def numPieces (n : Names Rat) : List Expr :=
-  (n.filter (fun kv => kv.2.v > 0)).map (fun kv => pieceExpr kv.1 kv.2.v kv.2.isF)
+  (n.filter (fun kv => kv.2.v > 0)).map (fun kv => pieceExpr kv.1 kv.2.v)
 
 def denPieces (n : Names Rat) : List Expr :=
-  (n.filter (fun kv => kv.2.v < 0)).map (fun kv => pieceExpr kv.1 (-kv.2.v) kv.2.isF)
+  (n.filter (fun kv => kv.2.v < 0)).map (fun kv => pieceExpr kv.1 (-kv.2.v))
 
 /-- `num[1:]`, or `'1'` when there is no numerator -/
 def nameHead (n : Names Rat) : Expr :=
